@@ -14,7 +14,9 @@ for ((s=FIRST; s<FIRST+COUNT; s++)); do
       echo "$out" | grep -A3 -E "^VIOLATION|INCONCLUSIVE" | head -6
       # keep the replay
       rp=$(echo "$out" | grep -m1 -oE "replay=[^ ]+" | cut -d= -f2)
-      [ -n "$rp" ] && mkdir -p silence_failures && cp "$rp" "silence_failures/${id}_seed${s}_$(basename "$rp")"
+      # kept outside the snapshot directory of a background run (vp stop removes that)
+      keep="${SILENCE_KEEP:-/tmp/silence_failures}"
+      [ -n "$rp" ] && mkdir -p "$keep" && cp "$rp" "$keep/${id}_seed${s}_$(basename "$rp")"
     fi
   done
   echo "seed $s done ($bad problems so far)"
